@@ -186,7 +186,7 @@ def mapper_stream(ctx: Ctx):
                        "{2^-10, 0.3, 1/7, 2.5, 3, 2^20, 1e9}, n ∈ {2,3,7}; non-trivial = base spec has a mapping and a front with ≥ 2 points")
     ctx.cov["tolerance"]["mapper optimum (float32 tables)"] = REL
     ctx.assumptions += ["float32 accumulation: scaled optimum compared with relative tolerance %g" % REL]
-    n = 40 if ctx.thorough else 10
+    n = 40 if ctx.thorough else 4
     jobs = []
     for i in range(n):
         p = ML.gen_params(ctx.rng)
@@ -195,7 +195,7 @@ def mapper_stream(ctx: Ctx):
         kind = ["energy", "throughput", "wl_instances", "einsum_instances"][i % 4]
         k = ctx.rng.choice(KS) if kind in ("energy", "throughput") else Fraction(ctx.rng.choice([2, 3, 7]))
         jobs.append((p, kind, k))
-    results = ML.pool_map(work, jobs, workers=8)
+    results = ML.pool_map(work, jobs, workers=4)
     drv = ctx.driver()
 
     def eq_scaled(a, b, k):  # b == a*k ?
